@@ -626,13 +626,13 @@ func checkLadnToNas(c *listCtx) {
 		return
 	}
 	for _, dl := range []int{1, 8, 20} {
-		for _, n := range []int{1, 3} {
+		for _, plmns := range [][]plmnText{repeatPlmns(1, plmnA), repeatPlmns(3, plmnA), {plmnA, plmnB}, {plmnA, plmnC, plmnA}} {
+			n := len(plmns)
 			c.r.Site("lay.ladn")
 			it := newListInterp(c.w)
 			modelDeepEqual(it)
 			st := it.NewState()
 			dnn, dnnB := symText(it, "dnn", dl)
-			plmns := repeatPlmns(n, plmnA)
 			arg := taiArgs(it, st, plmns)
 			res := it.Call(fn, []Value{dnn, arg}, st, 0)
 			got, ok := sliceBytes(it, st, res)
@@ -644,7 +644,11 @@ func checkLadnToNas(c *listCtx) {
 				want = append(want, tl...)
 				ok, msg = sameOctets(it, "LADN", got, want)
 			}
-			c.verdict("lay.ladn", fname, fmt.Sprintf("DNN of %d octets, %d TAIs", dl, n), fn, it, ok, msg)
+			several := false
+			for _, p := range plmns {
+				several = several || p != plmns[0]
+			}
+			c.verdict("lay.ladn", fname, fmt.Sprintf("DNN of %d octets, %d TAIs, several PLMNs=%v", dl, n, several), fn, it, ok, msg)
 		}
 	}
 }
@@ -726,7 +730,7 @@ func propC13(w *World, r *Report, tier string) {
 		r.Expect("lay.rejected-nssai", 4)
 		r.Expect("lay.tai-list", 10)
 		r.Expect("lay.service-area", 10)
-		r.Expect("lay.ladn", 6)
+		r.Expect("lay.ladn", 12)
 		r.Expect("walk.ladn", 6)
 	}()
 	checkSnssaiEncoders(c)
